@@ -127,3 +127,70 @@ class time_micros_onto:
 
     def body(n):
         pass
+
+
+# ------------------------------------------------------------------ decimals
+import contracts.lemmas as L
+
+
+@target(LW, "prepare_bytes_decimal")
+class prepare_bytes_decimal:
+    """a finite decimal is stored as the big-endian two's complement of its unscaled integer
+    (-1)**sign * digits * 10**(exponent + scale), in the number of bytes that integer needs; it is never stored as a
+    different number: more digits than the precision, or more fractional digits than the scale, raise ValueError.
+    Anything that is not a Decimal is passed on untouched."""
+    types = dict(data="py", schema="dict")
+    requires = lambda data, schema: (
+        isinstance(schema.get("scale", 0), int) and not isinstance(schema.get("scale", 0), bool)
+        and "precision" in schema and isinstance(schema["precision"], int) and not isinstance(schema["precision"], bool)
+        and implies(S.is_decimal(data), isinstance(S.dec_exp(data), int) and not isinstance(S.dec_exp(data), bool)))
+    modifies = []
+    uses_locals = ["unscaled_datum", "digits", "delta", "sign", "exp", "scale"]
+    raises = [R("ValueError", when=lambda data, schema: S.is_decimal(data) and (
+        len(S.dec_digits(data)) > schema["precision"] or S.dec_exp(data) + schema.get("scale", 0) < 0))]
+    loops = {0: lambda data, schema, unscaled_datum, digits, delta, sign, exp, scale: (
+        same(digits, S.dec_digits(data)) and sign == S.dec_sign(data) and same(exp, S.dec_exp(data))
+        and same(scale, schema.get("scale", 0)) and delta == S.dec_exp(data) + schema.get("scale", 0) and delta >= 0
+        and S.DIGITS_OK(S.dec_digits(data), len(S.dec_digits(data)))
+        and unscaled_datum == S.DIGVAL(S.dec_digits(data), _i) and unscaled_datum >= 0)}
+    loop_hints = {0: [lambda: L.digit_at(S.dec_digits(data), len(S.dec_digits(data)), _i)]}
+    exit_hints = {0: [lambda: L.pow10_pos(delta), lambda: L.pow2_mono(
+        S.bit_length(S.pow10(delta) * unscaled_datum),
+        8 * ((S.bit_length(S.pow10(delta) * unscaled_datum) + 8) // 8) - 1)]}
+    ensures = lambda data, schema, result: (
+        implies(not S.is_decimal(data), same(result, data))
+        and implies(S.is_decimal(data), same(result, S.int_to_bytes_signed_big(
+            S.UNSCALED(data, schema.get("scale", 0)),
+            (S.bit_length(S.pow10(S.dec_exp(data) + schema.get("scale", 0)) * S.DIGVAL(S.dec_digits(data), len(S.dec_digits(data)))) + 8) // 8))))
+
+
+@target(LW, "prepare_fixed_decimal")
+class prepare_fixed_decimal:
+    """a finite decimal is stored as the big-endian two's complement of its unscaled integer, sign-extended to exactly
+    the declared size; more digits than the precision, more fractional digits than the scale, or an unscaled integer
+    that does not fit the size raise ValueError -- it is never stored as a different number.
+    (size >= 1: the parser rejects a decimal on a fixed of size 0; CPython's (-1).to_bytes(0, signed=True) is b"".)"""
+    types = dict(data="py", schema="dict")
+    requires = lambda data, schema: (
+        isinstance(schema.get("scale", 0), int) and not isinstance(schema.get("scale", 0), bool)
+        and "precision" in schema and isinstance(schema["precision"], int) and not isinstance(schema["precision"], bool)
+        and "size" in schema and isinstance(schema["size"], int) and not isinstance(schema["size"], bool) and schema["size"] >= 1
+        and implies(S.is_decimal(data), isinstance(S.dec_exp(data), int) and not isinstance(S.dec_exp(data), bool)))
+    modifies = []
+    uses_locals = ["unscaled_datum", "digits", "delta", "sign", "size"]
+    hints = [lambda: L.digits_zeros(S.dec_digits(data), S.dec_exp(data) + schema.get("scale", 0))]
+    raises = [R("ValueError", when=lambda data, schema: S.is_decimal(data) and (
+        len(S.dec_digits(data)) > schema["precision"] or S.dec_exp(data) + schema.get("scale", 0) < 0
+        or not S.FITS_SIGNED(S.UNSCALED(data, schema.get("scale", 0)), schema["size"])))]
+    loops = {0: lambda data, schema, unscaled_datum, digits, delta, sign, size: (
+        sign == S.dec_sign(data) and same(size, schema["size"])
+        and delta == S.dec_exp(data) + schema.get("scale", 0) and delta >= 0
+        and same(digits, S.dec_digits(data) + S.repeat_tuple((0,), delta))
+        and len(digits) == len(S.dec_digits(data)) + delta
+        and S.DIGITS_OK(digits, len(digits))
+        and S.DIGVAL(digits, len(digits)) == S.DIGVAL(S.dec_digits(data), len(S.dec_digits(data))) * S.pow10(delta)
+        and unscaled_datum == S.DIGVAL(digits, _i) and unscaled_datum >= 0)}
+    loop_hints = {0: [lambda: L.digit_at(digits, len(digits), _i)]}
+    ensures = lambda data, schema, result: (
+        implies(not S.is_decimal(data), same(result, data))
+        and implies(S.is_decimal(data), same(result, S.int_to_bytes_signed_big(S.UNSCALED(data, schema.get("scale", 0)), schema["size"]))))
